@@ -476,6 +476,38 @@ def scaling_rules(chk, S, r3):
         from .. import bounds as Bd
         r3.require(num is not None and Bd.Bounds().prove_le(0, num), "_exp_gram_cholesky_init s >= 0", "number of doublings has the lower bound 0",
                    f"s = {T.show(num, 5)} has no proven lower bound 0 (for small matrices log2(norm/eta) is negative)", where_of(num, where))
+        # scaling-and-squaring: after s halvings the norm of A is below the order's threshold, i.e. s >= log2(|A|_1 / eta)
+        # (structural: s is a maximum / ceiling over terms one of which is exactly log2(|A|_1 / eta) for the eta selected by the dtype)
+        def lower_terms(t):
+            t_ = t
+            while isinstance(t_, T.Term) and t_.op in ("np.asarray", "np.astype") and t_.args:
+                t_ = t_.args[0]
+            if isinstance(t_, T.Term) and t_.op in ("np.maximum",):
+                return lower_terms(t_.args[0]) + lower_terms(t_.args[1])
+            if isinstance(t_, T.Term) and t_.op in ("np.ceil",):
+                return lower_terms(t_.args[0])
+            if isinstance(t_, T.Term) and t_.op in ("ite", "np.where"):
+                a_, b_ = lower_terms(t_.args[1]), lower_terms(t_.args[2])
+                return [x for x in a_ if any(x is y for y in b_)] or (a_ + b_ if False else [])
+            return [t_]
+
+        leaves = lower_terms(num) if num is not None else []
+        logs = [x for x in leaves if isinstance(x, T.Term) and x.op == "np.log2"]
+        norm1 = [x for x in T.subterms(num) if isinstance(x, T.Term) and x.op == "linalg.matrix_norm" and x.args and x.args[0] is Aat and x.kwargs.get("order") == 1] if num is not None else []
+        ok_s = False
+        detail_s = f"s = {T.show(num, 6)}"
+        if norm1:
+            for lg in logs:
+                arg = nf.norm(lg.args[0])
+                # arg == |A|_1 / eta  <=>  arg * eta == |A|_1  for an eta that does not depend on A (the dtype-selected threshold)
+                quot = nf.mul(arg, nf.power(nf.norm(norm1[0]), -1))
+                bases = {b for mono in quot for b, _e in mono}
+                if quot and all("A" not in T.atoms_of(b) or b.op == "ite" for b in bases) and len(quot) == 1:
+                    (mono, coef), = quot.items()
+                    if coef == 1 and len(mono) == 1 and mono[0][1] == -1 and any(k in T.show(mono[0][0], 6) for k in ("eta",)):
+                        ok_s = True
+        r3.require(ok_s, "_exp_gram_cholesky_init s >= log2(|A|_1 / eta)", "s is a ceiling / maximum over log2(|A|_1 / eta): the scaled matrix has 1-norm at most eta",
+                   f"no lower bound log2(|A|_1 / eta) found: {detail_s} -- the Pade / Legendre approximations are only accurate for |A / 2^s|_1 <= eta", where_of(num, where) if num is not None else where)
     # doubling step
     g = it.function_value(f"{GRAM}._exp_gram_cholesky_double")
     i, eA, U = A("i"), A("eA"), A("U")
@@ -672,23 +704,30 @@ def drift_rules(chk, S, r5):
                 odes[(variant, diffuse)] = (ode, it)
                 k = 3 + diffuse
                 r5.require(ode.fields.get("num_tcoeffs_in_args") == k, f"{base_name}{variant} num_tcoeffs_in_args (diffuse={diffuse})", f"= len(tcoeffs) + diffuse = {k}", f"= {ode.fields.get('num_tcoeffs_in_args')}", API)
-        # drift formula (evaluated on D = 3 coordinates)
-        ode, it = odes[("", 0)]
+        # drift formula, for every variant and every number of diffuse derivatives: the order D is the number of coefficients the state actually carries
+        val = None
+        for (variant_, diffuse_), (ode, it) in sorted(odes.items()):
+            D = 3 + diffuse_
+            xs = [A(f"x{i}") for i in range(D)]
+            val_ = it.call(ode.fields["autonomous"], [], {"jet_coords": xs}, "<harness>")
+            cfg_ = {"constructor": base_name + variant_, "diffuse_derivatives": diffuse_}
+            if base_name == "prior_matern":
+                z = T.mk("div", (T.mk("np.sqrt", (2 * (D - 0.5),)), A("length_scale")))
+                want = 0
+                for i, x in enumerate(xs):
+                    want = T.mk("add", (want, T.mk("mul", (T.mk("mul", (comb(D, i), T.mk("pow", (z, D - i)))), x)))) if i else T.mk("mul", (T.mk("mul", (comb(D, i), T.mk("pow", (z, D - i)))), x))
+                want = T.mk("neg", (want,))
+                okv = isinstance(val_, (list, tuple)) and len(val_) == 1 and nf.equal(val_[0], want)
+                r5.require(okv, f"prior_matern{variant_} drift (D = {D})", "-(sum_i C(D,i) z^(D-i) x_i), z = sqrt(2(D-1/2))/l with D = number of coefficients of the state",
+                           f"drift = {nf.show(nf.norm(val_[0])) if isinstance(val_, (list, tuple)) and val_ else val_}; expected {nf.show(nf.norm(want))}", API, cfg_)
+                if (variant_, diffuse_) == ("", 0):
+                    chk.sample({"rule": "R-C09-5", "matern_drift": nf.show(nf.norm(val_[0])) if isinstance(val_, (list, tuple)) and val_ else str(val_)})
+            else:
+                okv = isinstance(val_, (list, tuple)) and len(val_) == 1 and val_[0] is T.mk("call", (A("linop"), xs[-1]))
+                r5.require(okv, f"prior_ornstein_uhlenbeck_integrated{variant_} drift (D = {D})", "linop applied to the highest coefficient", f"drift = {T.show(val_, 3)}", API, cfg_)
+            if (variant_, diffuse_) == ("", 0):
+                val = val_
         xs = [A("x0"), A("x1"), A("x2")]
-        val = it.call(ode.fields["autonomous"], [], {"jet_coords": xs}, "<harness>")
-        if base_name == "prior_matern":
-            D = 3
-            z = T.mk("div", (T.mk("np.sqrt", (2 * (D - 0.5),)), A("length_scale")))
-            want = 0
-            for i, x in enumerate(xs):
-                want = T.mk("add", (want, T.mk("mul", (T.mk("mul", (comb(D, i), T.mk("pow", (z, D - i)))), x)))) if i else T.mk("mul", (T.mk("mul", (comb(D, i), T.mk("pow", (z, D - i)))), x))
-            want = T.mk("neg", (want,))
-            okv = isinstance(val, (list, tuple)) and len(val) == 1 and nf.equal(val[0], want)
-            r5.require(okv, "prior_matern drift", "-(sum_i C(D,i) z^(D-i) x_i), z = sqrt(2(D-1/2))/l", f"drift = {nf.show(nf.norm(val[0])) if isinstance(val, (list, tuple)) and val else val}; expected {nf.show(nf.norm(want))}", API)
-            chk.sample({"rule": "R-C09-5", "matern_drift": nf.show(nf.norm(val[0])) if isinstance(val, (list, tuple)) and val else str(val)})
-        else:
-            okv = isinstance(val, (list, tuple)) and len(val) == 1 and val[0] is T.mk("call", (A("linop"), xs[-1]))
-            r5.require(okv, "prior_ornstein_uhlenbeck_integrated drift", "linop applied to the highest coefficient", f"drift = {T.show(val, 3)}", API)
         # twins agree
         ode_d, it_d = odes[("_diffuse", 0)]
         val_d = it_d.call(ode_d.fields["autonomous"], [], {"jet_coords": xs}, "<harness>")
